@@ -32,7 +32,8 @@ class CustomAppError(Exception):
 class Obs(object):
     """What the script observed for one operation."""
     __slots__ = ('op', 'kind', 'value', 'exc', 'code', 'pulled_before', 'closed_before',
-                 'state_before', 'step', 'extra')
+                 'state_before', 'step', 'extra', 'pulled_after', 'send_failed_during',
+                 'closes_sent', 'lost_before')
 
     def __init__(self, op):
         self.op = op
@@ -45,6 +46,10 @@ class Obs(object):
         self.state_before = None
         self.step = 0
         self.extra = None
+        self.pulled_after = False
+        self.send_failed_during = False
+        self.closes_sent = 0
+        self.lost_before = False
 
     def brief(self):
         if self.kind == 'ok':
@@ -141,7 +146,10 @@ class WsHarness(object):
                 o.pulled_before = self.conn.disconnect_pulled
                 o.closed_before = self.app_closed
                 o.step = self.loop.app_steps
+                o.lost_before = self.conn.lost
                 self.obs.append(o)
+                failed0 = self.conn.failed_sends + len(self.conn.dropped)
+                closes0 = self.monitor.closes
                 try:
                     stop = await self._do(op, o, ws)
                     if o.kind is None:
@@ -151,6 +159,7 @@ class WsHarness(object):
                 except _ScriptRaise as sr:
                     o.kind = 'ok'
                     self.ctx.event('op', o.brief())
+                    self.script_exc = sr.exc
                     raise sr.exc
                 except Exception as ex:
                     o.kind = 'exc'
@@ -162,6 +171,9 @@ class WsHarness(object):
                         if op[0] == 'recv' and not self.app_closed and not self.disc_reported:
                             self.first_disc_recv = (self.consumed, o.code)
                         self.disc_reported = True
+                o.pulled_after = self.conn.disconnect_pulled
+                o.send_failed_during = self.conn.failed_sends + len(self.conn.dropped) > failed0
+                o.closes_sent = self.monitor.closes - closes0
                 self.ctx.event('op', o.brief())
                 self.ctx.ops_done += 1
                 if stop:
@@ -367,8 +379,8 @@ def _make_ws_middleware(h, spec):
             if act != 'ok':
                 raise _make_exc(act)
         MW.process_request_ws = process_request_ws
-    if spec.get('resource'):
-        act2 = spec['resource']
+    if spec.get('resource') or not spec.get('request'):
+        act2 = spec.get('resource') or 'ok'
 
         async def process_resource_ws(self, req, ws, resource, params):
             h.mw_calls.append(('resource', act2))
